@@ -24,7 +24,7 @@ echo "$suite" | grep -q "1 failed, 83 passed" || ok=0
 echo "$prop-$n: demo clean rc=$rc_clean, demo mutated rc=$rc_mut, suite: $suite ${failed:+EXTRA FAIL: $failed} => $( [ $ok = 1 ] && echo CONFIRMED || echo REJECTED )"
 if [ $ok = 1 ]; then
   d="/verif/seeded/$prop-$n"; mkdir -p "$d"
-  cp "$src/patch.diff" "$d/patch.diff"; cp "$demo" "$d/$(basename "$demo")"
+  git -C "$S/w" diff HEAD > "$d/patch.diff"; cp "$demo" "$d/$(basename "$demo")"
   /venv/bin/python - "$src/meta.json" "$d/meta.json" "$prop" "$suite" <<'PY'
 import json, sys
 src, dst, prop, suite = sys.argv[1:5]
